@@ -2,7 +2,7 @@
 Model of the trivialization maps `numqi.manifold.to_*` (`manifold/_internal.py`, `_stiefel.py`, `_compose.py`).
 No Mathlib import.  Every map is written once, against operation-only classes, for a *real* scalar type `α`
 (`Float` in the driver, `ℝ` in the theorems) and a *complex* scalar type `K` related to it by `CxOps α K`
-(`CF` in the driver, `ℂ` in the theorems; `K = α` for the real branches).
+(`CF` in the driver, `ℂ` in the theorems; the real branches use the same `K` with `isReal = true` and produce real entries).
 
 Parameter vectors are total functions `θ : Nat → α` (`θ p = theta[..., p]`) with the length given separately.
 External numerical routines (`expm`, `inv`, `cholesky`, the inverse square root of `eigh`/`PSDMatrixSqrtm`, `qr`) are
@@ -22,7 +22,7 @@ class Transc (α : Type) where
   sin : α → α
   cos : α → α
 
-/-- complex numbers `K` over the reals `α` (`K = α`, `I = 0` for the real branches) -/
+/-- complex numbers `K` over the reals `α` -/
 class CxOps (α : outParam Type) (K : Type) where
   ofReal : α → K
   conj : K → K
@@ -362,9 +362,6 @@ end CF
 
 instance : Transc Float := ⟨Float.sqrt, Float.exp, Float.log, Float.sin, Float.cos⟩
 instance : CxOps Float CF := ⟨fun x => ⟨x, 0⟩, CF.conj, ⟨0, 1⟩, CF.re, CF.im⟩
-/-- the real branches: `K = α = Float` -/
-instance : CxOps Float Float := ⟨id, id, 0, id, fun _ => 0⟩
-instance : NatCast Float := ⟨Nat.toFloat⟩
 
 /-- Gell-Mann scalars in binary64, complex carrier -/
 def cfScalars (d : Nat) : Scalars CF where
